@@ -11,8 +11,8 @@
 Require Import CV.Spec.BV CV.Model.PyPrelude CV.Model.Ast CV.Model.Build CV.Model.Rewrite CV.Model.AbsInt
                CV.Proofs.AstLemmas CV.Proofs.BuildSound CV.Proofs.SimpSound CV.Proofs.AbsIntSound CV.Proofs.AbsIntTable
                CV.Model.SI CV.Proofs.SISound CV.Proofs.AbsIntSI.
-Import ListNotations.
 From Coq Require Import ZArith List.
+Import ListNotations.
 Open Scope Z_scope.
 
 Theorem C24_aeval : forall (A : Type) (gamma : A -> value -> Prop) (aleaf : expr -> res A) (aop : opk -> list Z -> list A -> res A)
@@ -44,8 +44,8 @@ Print Assumptions C24_convert.
 
 Theorem C24_table : forall fuel ann tab joins rho e a v,
   Forall entry_ok tab -> Forall join_ok joins -> ann_ok ann rho -> wfe e ->
-  vsa_convert (mk fuel) ann tab joins e = Ok a -> eval rho e = Some v -> gamma_t a v.
-Proof. intros fuel. exact (table_convert_sound (mk fuel) (mk_sound fuel)). Qed.
+  vsa_convert (Build.mk fuel) ann tab joins e = Ok a -> eval rho e = Some v -> gamma_t a v.
+Proof. intros fuel. exact (table_convert_sound (Build.mk fuel) (SimpSound.mk_sound fuel)). Qed.
 Print Assumptions C24_table.
 
 Theorem C24_add_entry : forall a b r, wf a -> wf b -> bits a = bits b -> si_add a b = Ok r ->
